@@ -1,15 +1,15 @@
 \* exhaustive check of the code as it is (repaired design), one service instance: every kind, N in {2,3,4},
-\* limit in {0,1,2}, occupancy limit-1 and limit-2, with list requests and removals of absent ids
+\* limit in {0,1,2} (caps with separate check and insert: also 3), occupancy limit-1 and limit-2 (limit-3), with list requests and removals of absent ids
 \*   tlc -config Limits_mc.cfg Limits.tla        (expected: no error)
 CONSTANTS
   Kinds = {"conncap", "ctrlcap", "tuncap", "maplimit", "codequota", "mapquota"}
   NS = {2, 3, 4}
-  Lims = {0, 1, 2}
+  Lims = {0, 1, 2, 3}
   NodeCounts = {1}
   Variants = {"none"}
   Shape = "free"
   MaxReRel = 2
-  Slacks = {1, 2}
+  Slacks = {1, 2, 3}
   Listers = 1
   FixedKinds = {"conncap", "maplimit", "maplive", "codequota", "mapquota"}
   WithRelease = TRUE
